@@ -9,7 +9,8 @@ import time
 import glob
 from concurrent.futures import ThreadPoolExecutor
 
-ROOT = "/verif"
+ROOT = os.path.dirname(os.path.dirname(os.path.abspath(__file__)))
+REPO = os.environ.get("VERIF_REPO", "/repo")
 BUILD = os.path.join(ROOT, ".build")
 COQ = os.path.join(ROOT, "coq")
 NPROC = 16
@@ -117,6 +118,13 @@ def build_harness():
         env["CARGO_NET_OFFLINE"] = "true"
         env["RUSTFLAGS"] = "--cfg bitcoin_slices_verif"
         hdir = os.path.join(ROOT, "harness")
+        if REPO != "/repo":
+            # checks run against another checkout (scratch worktree): same harness, path dependency redirected
+            alt = os.path.join(BUILD, "harness_alt")
+            subprocess.run("rm -rf %s && mkdir -p %s && cp -r %s/src %s/Cargo.lock %s/.cargo %s/" % (alt, alt, hdir, hdir, hdir, alt), shell=True, check=True)
+            toml = open(os.path.join(hdir, "Cargo.toml")).read().replace('path = "/repo"', 'path = "%s"' % REPO)
+            open(os.path.join(alt, "Cargo.toml"), "w").write(toml)
+            hdir = alt
         p = subprocess.run("cargo build --offline 2>&1", shell=True, cwd=hdir, env=env, capture_output=True, text=True)
         hook = True
         if p.returncode != 0 and "verif_layout" in p.stdout:
